@@ -249,6 +249,7 @@ struct Run<V: VringT<GM> + Clone + Send + Sync + 'static, B: Wrap<V>> {
     listener: vhost::vhost_user::Listener,
     path: std::path::PathBuf,
     watch: Arc<Watch>,
+    silent_workers: std::collections::HashSet<usize>,
 }
 
 /// shuts the frontend's connection down when a step does not come back in time
@@ -295,9 +296,15 @@ impl<V: VringT<GM> + Clone + Send + Sync + 'static, B: Wrap<V>> Run<V, B> {
         }
         self.sh.lock().unwrap().cmds.insert(thread, cmd);
         let _ = self.probes[thread].write(1);
-        match self.rx.recv_timeout(Duration::from_millis(400)) {
+        // a busy machine must not be mistaken for a worker that has stopped: the first wait is long; a worker that
+        // did not answer once is not waited for again at length
+        let silent = self.silent_workers.contains(&thread);
+        match self.rx.recv_timeout(Duration::from_millis(if silent { 50 } else { 3000 })) {
             Ok(v) => v,
-            Err(_) => Val::s("worker-timeout"),
+            Err(_) => {
+                self.silent_workers.insert(thread);
+                Val::s("worker-timeout")
+            }
         }
     }
     /// the worker that owns queue q (first mask containing it) and q's position in its slice
@@ -820,7 +827,7 @@ fn run_inner<V: VringT<GM> + Clone + Send + Sync + 'static, B: Wrap<V>>(cfg: &[V
     let fe = Frontend::from_stream(sock, 0x8000);
     fe.set_hdr_flags(VhostUserHeaderFlag::NEED_REPLY);
     let _ = fe.get_features();
-    let mut run: Run<V, B> = Run { _v: std::marker::PhantomData, daemon, fe, sh: sh.clone(), probes, rx, nthreads, fdt: FdTable::new(), evfds: HashMap::new(), masks, nq, listener_fds: HashMap::new(), panics0: crate::PANICS.load(std::sync::atomic::Ordering::SeqCst), beq_ends: None, listener, path: path.clone(), watch: watch.clone() };
+    let mut run: Run<V, B> = Run { _v: std::marker::PhantomData, daemon, fe, sh: sh.clone(), probes, rx, nthreads, fdt: FdTable::new(), evfds: HashMap::new(), masks, nq, listener_fds: HashMap::new(), panics0: crate::PANICS.load(std::sync::atomic::Ordering::SeqCst), beq_ends: None, listener, path: path.clone(), watch: watch.clone(), silent_workers: Default::default() };
     let mut out = vec![];
     for st in steps {
         let parts = match st.as_l() {
